@@ -528,6 +528,44 @@ fn junk_independent(rules: &[String], with_junk: &[String], format: FilterFormat
     })
 }
 
+/// Oracle (f): several sources with DIFFERENT options fed to one FilterSet.  A line that one
+/// source's options reject (a cosmetic line under NetworkOnly, a standard rule in a hosts file, a
+/// network rule under CosmeticOnly) must not influence what another source, under whose options the
+/// same text is a valid rule, contributes: the engine equals the one built from the same sources
+/// with each source's rejected lines deleted.
+const SOURCE_PLANS: &[&[(bool, u8)]] = &[
+    &[(false, 1), (false, 0)],          // NetworkOnly, then everything
+    &[(false, 2), (false, 0)],          // CosmeticOnly, then everything
+    &[(true, 0), (false, 0)],           // read as a hosts file, then as a standard list
+    &[(false, 1), (false, 2)],          // NetworkOnly, then CosmeticOnly
+    &[(true, 0), (false, 2), (false, 1)],
+];
+fn plan_opts(hosts: bool, rt: u8) -> ParseOptions {
+    opts(if hosts { FilterFormat::Hosts } else { FilterFormat::Standard }, match rt { 1 => RuleTypes::NetworkOnly, 2 => RuleTypes::CosmeticOnly, _ => RuleTypes::All })
+}
+fn multi_source_independent(lines: &[String], plan: usize) -> Result<Option<String>, String> {
+    let lines = lines.to_vec();
+    catch(move || {
+        let plan = SOURCE_PLANS[plan % SOURCE_PLANS.len()];
+        let (mut f1, mut f2) = (FilterSet::new(true), FilterSet::new(true));
+        let mut deleted = 0usize;
+        for (hosts, rt) in plan.iter() {
+            let o = plan_opts(*hosts, *rt);
+            f1.add_filters(&lines, o);
+            let kept: Vec<String> = lines.iter().filter(|l| parse_filter(l, true, o).is_ok()).cloned().collect();
+            deleted += lines.len() - kept.len();
+            f2.add_filters(&kept, o);
+        }
+        for optimize in [false, true] {
+            let (e1, e2) = (Engine::from_filter_set(f1.clone(), optimize), Engine::from_filter_set(f2.clone(), optimize));
+            if e1.serialize_raw().ok() != e2.serialize_raw().ok() {
+                return Some(format!("one FilterSet fed the same {} lines under {} option sets in turn: the engine differs from the one fed each source with its {} rejected line(s) deleted (optimize={})", lines.len(), plan.len(), deleted, optimize));
+            }
+        }
+        None
+    })
+}
+
 /// Oracle (d): NetworkOnly / CosmeticOnly / Hosts load no rule of the other kind.
 fn rule_types_respected(rules: &[String], urls: &[(String, String, &'static str)]) -> Result<Option<String>, String> {
     let a = rules.to_vec();
@@ -658,6 +696,10 @@ fn replay(rp: &Value) -> Option<String> {
                 Err(m) => Some(format!("panic: {}", m)),
             }
         }
+        "multi_source" => match multi_source_independent(&strs(&rp["rules"]), rp["plan"].as_u64().unwrap_or(0) as usize) {
+            Ok(x) => x,
+            Err(m) => Some(format!("panic: {}", m)),
+        },
         "rule_types" => {
             let rules = strs(&rp["rules"]);
             let urls = urls_for(&mut r, &rules);
@@ -1005,6 +1047,14 @@ fn main() {
             Ok(None) => {}
             Ok(Some(d)) => sm.failure(None, &d, json!({"kind": "rule_types", "rules": with, "seed": a.seed})),
             Err(m) => sm.failure(None, &format!("panic: {}", m), json!({"kind": "rule_types", "rules": with, "seed": a.seed})),
+        }
+        // oracle (f): the same lines as several sources of one FilterSet, each under other options
+        sm.oracle_evaluations += 1;
+        cs.stat("multi_source_filter_sets");
+        match multi_source_independent(&with, it) {
+            Ok(None) => {}
+            Ok(Some(d)) => sm.failure(None, &d, json!({"kind": "multi_source", "rules": with, "plan": it % SOURCE_PLANS.len()})),
+            Err(m) => sm.failure(None, &format!("panic: {}", m), json!({"kind": "multi_source", "rules": with, "plan": it % SOURCE_PLANS.len()})),
         }
     }
     sm.extra.insert("streams".into(), json!({"lines": lines.len(), "real_lines_sampled": real.len()}));
